@@ -141,17 +141,20 @@ theorem coalesced_load_before_fix_differs :
 
 /-! ## FLAT stores -/
 
-/-- **coalesced_store_equiv.** For every register count, EXEC mask, address vector, data and memory:
+/-- **coalesced_store_equiv.** For every store width `bw` (1 = flat_store_byte, 2 = flat_store_short,
+    4 = dword stores), register count, EXEC mask, address vector, data and memory:
     the per-line write requests built by the coalescer (bytes merged lane-ascending, dirty mask =
     touched bytes), applied by the memory in **any** order `ord`, leave the memory the emulator's
     lane-ascending `runFlatStore*` leaves — whether or not lanes overlap (overlapping bytes always lie
-    in the same line, where both sides resolve them lane-ascending) — provided no dword runs over the
-    end of its line (then the real coalescer panics: `C02.store-differs.*.straddle`). -/
-theorem coalesced_store_equiv (ls cnt exec : Nat) (addr : Nat → Nat) (data : Nat → Nat → Nat) (m : St)
+    in the same line, where both sides resolve them lane-ascending) — provided no stored element runs
+    over the end of its line (then the real coalescer panics: `C02.store-differs.*.straddle`). Both
+    sides write the same `bw` low bytes of each data register (the coalescer after the repair of
+    `generateWriteReqs`; see `byte_store_before_fix_differs`). -/
+theorem coalesced_store_equiv (ls bw cnt exec : Nat) (addr : Nat → Nat) (data : Nat → Nat → Nat) (m : St)
     (ord : List Nat) (hls : 0 < ls)
-    (hns : storeStraddles ls cnt (active exec addr) = false)
+    (hns : storeStraddles ls bw cnt (active exec addr) = false)
     (hord : ord.Perm (storeLines ls cnt (active exec addr))) :
-    timingStore ls cnt (active exec addr) data ord m = emuStore ls cnt (active exec addr) data m := by
+    timingStore ls bw cnt (active exec addr) data ord m = emuStore ls bw cnt (active exec addr) data m := by
   unfold timingStore emuStore
   apply grouped_eq
   · exact hord.nodup_iff.mpr (dedup_nodup _)
@@ -169,12 +172,29 @@ theorem store_request_summary (r : List Wr) (m : St) : applyReq (summ r) m = app
 
 /-- two lanes storing overlapping dwords (addresses 4 and 6) plus one in the next line -/
 def demoSAddr : Nat → Nat := fun i => if i = 0 then 4 else if i = 1 then 6 else 64
-example : storeStraddles 64 1 (active 7 demoSAddr) = false := by decide
+example : storeStraddles 64 4 1 (active 7 demoSAddr) = false := by decide
 example : storeLines 64 1 (active 7 demoSAddr) = [0, 64] := by decide
+
+/-- after the repairs both sides implement the same FLAT opcodes with the same widths: every load opcode
+    16–23 (the emulator lacked 19 = sshort and 22 = dwordx3: `C02.unsupported.emu.*`), and the stores
+    24, 26, 28–31 through one `storeOp` table. -/
+theorem flat_opcodes_agree (opc : Nat) : emuHasLoad opc = (loadOp opc).isSome := rfl
+
+theorem flat_load_before_fix_unsupported :
+    emuHasLoadOld 19 = false ∧ emuHasLoadOld 22 = false ∧ (loadOp 19).isSome ∧ (loadOp 22).isSome := by decide
+
+/-- the coalescer before the repair (`storeOpTimingOld`: the whole data dword for opcodes 24 and 26):
+    `flat_store_byte` of 0x11223344 to address 0 left 0x33 in byte 1 in timing mode, the emulator
+    (and the hardware) leave that byte alone. -/
+theorem byte_store_before_fix_differs :
+    storeOp 24 = some (1, 1) ∧ storeOpTimingOld 24 = some (4, 1) ∧
+    timingStore 64 4 1 (active 1 (fun _ => 0)) (fun _ _ => 0x11223344) [0] (fun _ => 0) (0, 1) = 0x33 ∧
+    emuStore 64 1 1 (active 1 (fun _ => 0)) (fun _ _ => 0x11223344) (fun _ => 0) (0, 1) = 0 := by
+  decide
 
 /-! ## SMEM loads -/
 
-/-- **scalar_load_equiv.** `executeSMEMLoad` splits an n-byte scalar load (n = 4, 8, 16, 32 — any
+/-- **scalar_load_equiv.** `executeSMEMLoad` splits an n-byte scalar load (n = 4, 8, 16, 32, 64 — any
     multiple of 4) at cache-line boundaries; `handleScalarDataLoadReturn` writes each chunk to
     `sdst + (addr - start)/4 …`. For a dword-aligned start and **any order of the chunk responses**
     the SGPRs equal what `runSLOADDWORD*` writes. -/
@@ -196,12 +216,43 @@ theorem scalar_load_equiv (ls reg start n : Nat) (m : Nat → Nat) (s : St) (ord
   rw [← hcw] at hnd
   exact (hp.map _).nodup_iff.mpr hnd
 
+/-- **scalar_load_equiv_any_address.** Both modes now clear the two low address bits (`smemAddr`, ISA:
+    `m_addr = (SGPR[SBASE] + offset) & ~0x3`), so the equivalence needs no alignment hypothesis: for
+    **every** byte address, every multiple-of-4 size and every order of the chunk responses the scalar
+    unit of the timing CU writes what the emulator writes. -/
+theorem scalar_load_equiv_any_address (ls reg addr n : Nat) (m : Nat → Nat) (s : St) (ord : List (Nat × Nat))
+    (hls : 0 < ls) (h4 : ls % 4 = 0) (hn : n % 4 = 0)
+    (hord : ord.Perm (chunks ls (n + 1) (smemAddr addr) n)) :
+    timingSmem reg (smemAddr addr) m ord s = emuSmem reg (smemAddr addr) n m s :=
+  scalar_load_equiv ls reg (smemAddr addr) n m s ord hls h4 (by unfold smemAddr; omega) hn hord
+
+/-- the chunks of an aligned start are whole dwords: the return path (`RegCount = len/4`) cannot fault -/
+example : smemAddr 62 = 60 ∧ chunks 64 9 (smemAddr 62) 8 = [(60, 4), (64, 4)] ∧
+    smemFaults (chunks 64 9 (smemAddr 62) 8) = false := by decide
+
+/-- before the repair neither mode cleared the low bits: `s_load_dwordx2` at byte 62 of a line was cut
+    into chunks of 2 and 6 bytes; the 2-byte response has `RegCount = 0`, which the register file turns
+    into 1 and slices 4 bytes of a 2-byte buffer (panic) — was replayed as `C02.smem-differs.unaligned`. -/
+theorem scalar_load_unaligned_before_fix_faults :
+    chunks 64 9 62 8 = [(62, 2), (64, 6)] ∧ smemFaults (chunks 64 9 62 8) = true := by decide
+
 /-- `s_load_dwordx8` starting 16 bytes before a line boundary: two chunks -/
 example : chunks 64 33 48 32 = [(48, 16), (64, 16)] := by decide
 
-/-- `s_load_dwordx16` exists in the emulator only (`executeSMEMInst` has no case 4):
-    a program using it cannot run in timing mode — replayed: `C02.unsupported.timing.s_load_dwordx16`. -/
-theorem scalar_x16_timing_unsupported : smemEmuBytes 4 = some 64 ∧ smemTimingBytes 4 = none := ⟨rfl, rfl⟩
+/-- **scalar_opcodes_agree.** After the repair of `executeSMEMInst` (case 4 added) the scalar unit of the
+    timing CU executes exactly the opcodes the emulator executes, with the same byte counts — so
+    `scalar_load_equiv` (any multiple of 4 bytes) covers `s_load_dword` … `s_load_dwordx16`. -/
+theorem scalar_opcodes_agree (op : Nat) : smemTimingBytes op = smemEmuBytes op := by
+  unfold smemTimingBytes smemEmuBytes
+  split <;> rfl
+
+/-- `s_load_dwordx16` at a line-aligned address: one 64-byte chunk; 16 bytes further: two chunks -/
+example : chunks 64 65 128 64 = [(128, 64)] ∧ chunks 64 65 144 64 = [(144, 48), (192, 16)] := by decide
+
+/-- before the repair `s_load_dwordx16` existed in the emulator only (`executeSMEMInst` had no case 4):
+    a program using it could not run in timing mode — was replayed as `C02.unsupported.timing.s_load_dwordx16`. -/
+theorem scalar_x16_timing_before_fix_unsupported :
+    smemEmuBytes 4 = some 64 ∧ smemTimingBytesOld 4 = none := ⟨rfl, rfl⟩
 
 /-! ## outstanding-access counter -/
 
